@@ -64,4 +64,34 @@ def monShouldBroadcast (spendConfirmed spendAwaiting : Bool) (height : Nat) (htl
   else scanList.any (fun (s, holderTx) =>
     htlcs.any (fun x => x.set == s && shouldBroadcastFor height x.cltv (scanHtlcOutbound holderTx (offeredIn s x.weOffered)) x.preimage))
 
+/-! ### Where a forwarded HTLC can sit, and which timeout sweep looks there (round 5b) -/
+
+/-- locations of a forwarded HTLC (one with a downstream counterpart) inside the node. Hand-written enumeration. -/
+inductive FwdLoc where
+  | intercepted           -- pending_intercepted_htlcs (HTLCIntercepted not yet answered)
+  | trampolineAwaiting    -- awaiting_trampoline_forwards
+  | holdingCell           -- the outbound channel's holding cell
+  | commitment (s : ScanSet)  -- in a commitment transaction of the outbound channel
+  deriving DecidableEq, Repr
+
+def FwdLoc.all : List FwdLoc := [.intercepted, .trampolineAwaiting, .holdingCell, .commitment .holderCurrent,
+  .commitment .counterpartyCurrent, .commitment .counterpartyPrev]
+
+/-- hand-written: the do_chain_event sweep responsible for a manager-side location -/
+def mgrSweepOf : FwdLoc → Option MgrSweep
+  | .intercepted => some .intercepted
+  | .trampolineAwaiting => some .trampolineAwaiting
+  | .holdingCell => some .holdingCell
+  | .commitment _ => none
+
+/-- a location is swept iff: manager-side — its sweep is among the TRANSLATED `chainEventSweeps`; in a commitment — the set is
+    visited BOTH by the translated on-chain trigger scan (`scanList`) and by the translated pre-emptive fail-back loop
+    (`preemptiveSweepList`) of the monitor -/
+def sweptBy (l : FwdLoc) : Bool :=
+  match l with
+  | .commitment s => preemptiveSweepList.contains s && scanList.any (fun p => p.1 == s)
+  | l => match mgrSweepOf l with
+    | some w => chainEventSweeps.contains w
+    | none => false
+
 end Ldk.Timing
